@@ -300,6 +300,16 @@ func c07FifoBatch(seed int64, tier string, b int, out *childOut) {
 // c07AuditFifoBatch: audit records through FIFO -> AuditLogIngester -> Read
 // versus the same records without delimiter fed straight into Read.
 func c07AuditFifoBatch(seed int64, b int, out *childOut) {
+	// A disagreement must reproduce: the comparison is repeated once before it
+	// is reported (a reassembler maintenance tick falling into the few
+	// milliseconds of a run can delay the last event of either side).
+	if first := c07AuditFifoOnce(seed, b, out, false); first {
+		c07AuditFifoOnce(seed, b, out, true)
+	}
+}
+
+// c07AuditFifoOnce returns true when the two feeds disagreed.
+func c07AuditFifoOnce(seed int64, b int, out *childOut, report bool) bool {
 	r := vlib.NewRng(seed, "C07/aufifo/"+strconv.Itoa(b))
 	o := randOpts{nsess: 2 + r.Intn(3), maxEvents: 6, exec: true}
 	plan, ops := randHistory(r, o)
@@ -332,9 +342,17 @@ func c07AuditFifoBatch(seed int64, b int, out *childOut) {
 			lines = append(lines, vlib.AuUser("CRED_DISP", ts, seq, plan.Pid[op.K], plan.Sid[op.K], "PAM:setcred", "success"))
 		}
 	}
-	runRead := func(feed func(audits chan string, stop <-chan struct{})) ([]string, error) {
+	// runRead feeds one Auditd.Read. wantN < 0: direct mode - the lines go in
+	// through an unbuffered channel followed by two barrier records, so the
+	// acceptance of the second proves everything before was pushed. wantN >= 0:
+	// the feed goes through the FIFO and the run waits until wantN events have
+	// been written (the count the direct run produced) or 30 s have passed.
+	runRead := func(feed func(audits chan string, stop <-chan struct{}), wantN int) ([]string, error) {
 		rec := vlib.NewRec()
-		audits := make(chan string, 16)
+		audits := make(chan string)
+		if wantN >= 0 {
+			audits = make(chan string, 16)
+		}
 		logins := make(chan common.RemoteUserLogin)
 		a := auditd.Auditd{Audits: audits, Logins: logins, EventW: rec.Writer(), Health: health.NewHealth()}
 		ctx, cancel := context.WithCancel(context.Background())
@@ -357,26 +375,25 @@ func c07AuditFifoBatch(seed int64, b int, out *childOut) {
 		}
 		stop := make(chan struct{})
 		feed(audits, stop)
-		// wait until every expected emission has been made or 30 s passed
-		deadline := time.Now().Add(30 * time.Second)
-		lastN, stable := -1, 0
-		for time.Now().Before(deadline) {
-			n := rec.Len()
-			if n == lastN && len(audits) == 0 {
-				stable++
-				if stable > 40 {
-					break
+		if wantN < 0 {
+			for k := 0; k < 2; k++ {
+				select {
+				case audits <- vlib.AuUser("USER_ACCT", vlib.BaseTSms+900000+int64(k), uint32(90000+k), 1, "4294967295", "PAM:accounting", "success"):
+				case err := <-done:
+					return nil, err
 				}
-			} else {
-				stable = 0
 			}
-			lastN = n
-			select {
-			case err := <-done:
-				return nil, err
-			default:
+		} else {
+			deadline := time.Now().Add(30 * time.Second)
+			for rec.Len() < wantN && time.Now().Before(deadline) {
+				select {
+				case err := <-done:
+					return nil, err
+				default:
+				}
+				time.Sleep(500 * time.Microsecond)
 			}
-			time.Sleep(500 * time.Microsecond)
+			time.Sleep(2 * time.Millisecond) // room for surplus events to show up
 		}
 		close(stop)
 		var got []string
@@ -389,10 +406,12 @@ func c07AuditFifoBatch(seed int64, b int, out *childOut) {
 		for _, l := range lines {
 			audits <- l
 		}
-	})
+	}, -1)
 	if err != nil {
-		out.violation("C07:audit-fifo:direct-read-failed", err.Error(), map[string]any{"lines": lines})
-		return
+		if report {
+			out.violation("C07:audit-fifo:direct-read-failed", err.Error(), map[string]any{"lines": lines})
+		}
+		return true
 	}
 	dir, _ := os.MkdirTemp("", "verif-c07a-")
 	defer os.RemoveAll(dir)
@@ -409,17 +428,25 @@ func c07AuditFifoBatch(seed int64, b int, out *childOut) {
 		}
 		chunkWrite(w, []byte(strings.Join(lines, "\n")+"\n"), r, b%5)
 		w.Close()
-	})
+	}, len(want))
 	if err != nil {
-		out.violation("C07:audit-fifo:read-failed-via-fifo", err.Error(), map[string]any{"lines": lines})
-		return
+		if report {
+			out.violation("C07:audit-fifo:read-failed-via-fifo", err.Error(), map[string]any{"lines": lines})
+		}
+		return true
 	}
-	out.add("audit_fifo_batches", 1)
-	out.add("audit_fifo_records", len(lines))
-	out.class("aufifo|" + strconv.Itoa(len(plan.Sid)))
+	if !report {
+		out.add("audit_fifo_batches", 1)
+		out.add("audit_fifo_records", len(lines))
+		out.class("aufifo|" + strconv.Itoa(len(plan.Sid)))
+	}
 	if !reflect.DeepEqual(want, got) {
-		out.violation("C07:audit-fifo:events-differ", fmt.Sprintf("direct feed produced %d UserActions, FIFO feed %d", len(want), len(got)), map[string]any{"lines": lines, "direct": want, "fifo": got})
+		if report {
+			out.violation("C07:audit-fifo:events-differ", fmt.Sprintf("direct feed produced %d UserActions, FIFO feed %d (reproduced twice)", len(want), len(got)), map[string]any{"lines": lines, "direct": want, "fifo": got})
+		}
+		return true
 	}
+	return false
 }
 
 func checkC07(r *vlib.Run) int {
